@@ -1,8 +1,9 @@
 import HqModel.Core.Sched
 /-!
 M7 Sched, part 1: the instance of one scheduling decision and `create_task_batches`
-(`scheduler/batches.rs`) for the fragment of property C15: single-node, single-variant, cpu-only request
-classes, no time limits, no prefill (proactive filling off).
+(`scheduler/batches.rs`) for the fragment of property C15: single-node, single-variant request classes over TWO
+resource kinds (cpus and one more, e.g. gpus; a class asks for cpus and optionally for the second kind, a worker may
+lack the second kind), no time limits, no prefill (proactive filling off).
 
 `batches` is written as a recursion over the globally merged, descending list of distinct priorities; the
 code instead advances one iterator per queue and looks for the maximum of the current heads — the same
@@ -23,6 +24,10 @@ structure Worker where
   assigned : List Nat := []
   /-- request classes the worker has rejected (`blocked_requests`, variant 0) -/
   blocked : List Nat := []
+  /-- second resource kind: total amount (in 1/10000); 0 = the worker does not have the kind -/
+  total2 : Nat := 0
+  /-- second resource kind: free amount at the start of the round -/
+  free2 : Nat := 0
   deriving Repr, DecidableEq, Inhabited
 
 structure RqClass where
@@ -30,6 +35,8 @@ structure RqClass where
   need : Nat
   /-- `ResourceWeight` in 1/10000 -/
   weight : Nat := 10000
+  /-- amount of the second resource kind a task of the class needs (in 1/10000); 0 = the request has no entry for it -/
+  need2 : Nat := 0
   deriving Repr, DecidableEq, Inhabited
 
 /-- ready part of a `TaskQueue`, as in `HqModel.Core.Queue.ready`: descending priority, ids ascending -/
@@ -46,6 +53,11 @@ structure Instance where
 def Instance.need (inst : Instance) (c : Nat) : Nat :=
   match inst.classes[c]? with
   | some k => k.need
+  | none => 0
+
+def Instance.need2 (inst : Instance) (c : Nat) : Nat :=
+  match inst.classes[c]? with
+  | some k => k.need2
   | none => 0
 
 def Instance.weight (inst : Instance) (c : Nat) : Nat :=
@@ -94,10 +106,24 @@ structure Batch where
   cuts : List Cut := []
   deriving Repr, DecidableEq, Inhabited
 
+/-- `WorkerResources::task_max_count_for_request` over the two kinds: how many tasks needing `(n1, n2)` fit into the
+amounts `(a1, a2)`; the minimum runs over the entries of the request, and there is an entry for the second kind iff
+`n2 ≠ 0` (a kind the worker lacks has amount 0) -/
+def fitCount (a1 a2 n1 n2 : Nat) : Nat := if n2 = 0 then a1 / n1 else min (a1 / n1) (a2 / n2)
+
+/-- `Worker::is_capable_to_run_rqv` (single variant, no time limit): every entry fits into the worker's TOTAL resources -/
+def capable (inst : Instance) (c : Nat) (w : Worker) : Bool :=
+  inst.need c ≤ w.total && inst.need2 c ≤ w.total2
+
+/-- `Worker::have_immediate_resources_for_rq`: every entry fits into the resources that are free now -/
+def fitsNow (inst : Instance) (c : Nat) (w : Worker) : Bool :=
+  inst.need c ≤ w.free && inst.need2 c ≤ w.free2
+
 /-- `limit` of a single-node batch: over the workers that can run the class at all, how many tasks fit into
 the free resources now, at least one per worker -/
 def Instance.limitOf (inst : Instance) (c : Nat) : Nat :=
-  (inst.workers.map fun w => if inst.need c ≤ w.total then max 1 (w.free / inst.need c) else 0).sum
+  (inst.workers.map fun w =>
+    if capable inst c w then max 1 (fitCount w.free w.free2 (inst.need c) (inst.need2 c)) else 0).sum
 
 structure MState where
   bs : List Batch
